@@ -382,7 +382,7 @@ var readOnlyRootMethods = map[string]string{
 	"tree.RootEntry.String":                   "debug rendering",
 	"tree.sharedEntryAttributes.String":       "debug rendering",
 	"tree.sharedEntryAttributes.StringIndent": "debug rendering",
-	kApplyIntent:                              "the apply itself",
+	kApplyIntent: "the apply itself",
 }
 
 func predict(w *core.World, r *core.Report, low *ssa.Function) {
